@@ -22,9 +22,23 @@ def check(prog, run, rule_id, prefixes, floor):
         anyp = {x.arg for x in a.posonlyargs + a.args + a.kwonlyargs
                 if x.annotation is not None and ast.unparse(x.annotation) in ("Any", "Optional[Any]", "_ScalarValue")}
         ops = _truth_operands(f.node)
+        # a local bound (only) to the outcome of a test - a comparison, a not / and / or of tests, an isinstance() - is a
+        # boolean whatever it is called (`value_is_null = resolved_value is None`)
+        flags, other = set(), set()
+        for n in own_nodes(f.node):
+            tg = n.targets if isinstance(n, ast.Assign) else [n.target] if isinstance(n, (ast.AnnAssign, ast.AugAssign)) else []
+            for t in tg:
+                for nm in [x.id for x in ast.walk(t) if isinstance(x, ast.Name)]:
+                    v = getattr(n, "value", None)
+                    is_test = isinstance(n, ast.Assign) and isinstance(t, ast.Name) and (
+                        isinstance(v, ast.Compare) or (isinstance(v, ast.UnaryOp) and isinstance(v.op, ast.Not))
+                        or (isinstance(v, ast.Constant) and isinstance(v.value, bool))
+                        or (isinstance(v, ast.Call) and isinstance(v.func, ast.Name) and v.func.id in ("isinstance", "bool", "callable", "issubclass")))
+                    (flags if is_test else other).add(nm)
+        flags -= other
         r.instance("%s: %d truth tests" % (f.qualname, len(ops)), nontrivial=False)
         for o in ops:
-            if not (isinstance(o, ast.Name) and (o.id in anyp or "value" in o.id.lower())):
+            if not (isinstance(o, ast.Name) and (o.id in anyp or "value" in o.id.lower())) or o.id in flags:
                 continue
             narrowed = False
             cur = o
